@@ -139,21 +139,21 @@ def read_text(F, content, io, *extra):
         shutil.rmtree(d, ignore_errors=True)
 
 
-def write_text(f, io, binary=False):
+def write_text(f, io, binary=False, extra=()):
     """the text (bytes in binary storage) a file writes, through a buffer or through a path
     (decoded with the declared encoding)"""
     if not io:
         from io import BytesIO, StringIO
 
         buf = BytesIO() if binary else StringIO()
-        f.write(buf)
+        f.write(buf, *extra)
         return buf.getvalue()
     import os, shutil, tempfile
 
     d = tempfile.mkdtemp(prefix="cfi-io-")
     try:
         path = os.path.join(d, "out.dat")
-        f.write(path)
+        f.write(path, *extra)
         with open(path, "rb") as fh:
             raw = fh.read()
         return raw if binary else raw.decode(io["enc"])
@@ -215,7 +215,7 @@ def mk_block_classes(blocks, binary=False):
                     if self.ends(c, "BINARY"):
                         break
                 keep(self, [buf])
-                return True
+                return reports(self, len(buf) > 0 and self.ends(buf[-1:], "BINARY"))
 
         else:
 
@@ -229,9 +229,15 @@ def mk_block_classes(blocks, binary=False):
                     if self.ends(line):
                         break
                 keep(self, lines)
-                return True
+                return reports(self, len(lines) > 0 and bool(self.ends(lines[-1])))
 
         def write(self, file: IO, *args, **kwargs):
+            for a in args:
+                # whatever the caller forwards through File.write(to, *args) reaches every element;
+                # an element may consult it — e.g. the file's own container — while it is being written
+                if hasattr(a, "__len__") and hasattr(a, "of_type"):
+                    len(a)
+                    next(iter(a), None)
             for chunk in payload(self):
                 file.write(chunk)
             return True
@@ -271,6 +277,14 @@ def enc_belem(e, classes, binary):
 
 # every third declared block / section type keeps what it read in a slot of its own and
 # leaves the inherited `data` slot at None (the library does not require `data` to be used)
+def reports(obj, complete):
+    """the documented result of read(): "the success, or not, in the reading".  The framework
+    ignores it; a third of the declared types (by name) report False when the input ended before
+    the element was complete, the others always report True"""
+    digits = "".join(ch for ch in type(obj).__name__ if ch.isdigit())
+    return bool(complete) if digits and int(digits) % 3 == 1 else True
+
+
 def own_slot(i):
     return ["raw"] if i % 3 == 2 else []
 
@@ -303,7 +317,7 @@ def mk_section_classes(secs):
                         break
                     lines.append(line)
                 keep(self, lines)
-                return True
+                return reports(self, len(lines) == _n)
 
         else:
             pat = re.compile(pat_render(sd["until"]))
@@ -318,9 +332,15 @@ def mk_section_classes(secs):
                     if _p.search(line) is not None:
                         break
                 keep(self, lines)
-                return True
+                return reports(self, len(lines) > 0 and _p.search(lines[-1]) is not None)
 
         def write(self, file: IO, *args, **kwargs):
+            for a in args:
+                # whatever the caller forwards through File.write(to, *args) reaches every element;
+                # an element may consult it — e.g. the file's own container — while it is being written
+                if hasattr(a, "__len__") and hasattr(a, "of_type"):
+                    len(a)
+                    next(iter(a), None)
             for chunk in payload(self):
                 file.write(chunk)
             return True
